@@ -241,6 +241,8 @@ def verify_function(key, table, fields, monitor=None, timeout_ms=None, cex_fn=No
 
         ctx = Ctx(ex, args, old_arr, new_arr, g_old, g_new, ret, raised, exc, after, s)
         for label, fn_ens, props in con.ensures:
+            if props and "assumed" in props:
+                continue        # stated, used by callers, listed as an assumption in the evidence; not proved
             goal = fn_ens(ctx)
             obligations.append(Obligation("%s/post[%s]" % (key, label), s.pc, goal, s.sig, "post", label,
                                           props or con.props, {"outcome": out.kind}))
